@@ -20,6 +20,7 @@ def rules(ctx, report, facts, config, pfx="C10"):
     report.guard(pfx + ".EARLIEST", P.accept, ctx, report, pfx + ".EARLIEST", facts, config, ("chain",))
     report.guard(pfx + ".ACCEPT", P.accept, ctx, report, pfx + ".ACCEPT", facts, config, ("accept",))
     report.guard(pfx + ".EXACT", P.matrix, ctx, report, pfx + ".EXACT", facts, config, ("exact",))
+    report.guard(pfx + ".EXACT", P.intersect_body, ctx, report, pfx + ".EXACT", facts, config)
     report.guard(pfx + ".DEPCOVER", P.depcover, ctx, report, pfx + ".DEPCOVER", facts, config)
     report.guard(pfx + ".ALLOCC", P.crossoff, ctx, report, pfx + ".ALLOCC", facts, config, ("all-occurrences",))
     report.guard(pfx + ".DEPGATE", P.depgate, ctx, report, pfx + ".DEPGATE", facts, config)
